@@ -10,6 +10,8 @@ import (
 	"time"
 
 	"github.com/bytom/bytom/account"
+	"github.com/bytom/bytom/api"
+	"github.com/bytom/bytom/asset"
 	"github.com/bytom/bytom/blockchain/pseudohsm"
 	"github.com/bytom/bytom/blockchain/signers"
 	"github.com/bytom/bytom/blockchain/txbuilder"
@@ -19,6 +21,7 @@ import (
 	"github.com/bytom/bytom/crypto/ed25519/chainkd"
 	"github.com/bytom/bytom/protocol/bc"
 	"github.com/bytom/bytom/protocol/bc/types"
+	"github.com/bytom/bytom/wallet"
 	mnem "github.com/bytom/bytom/wallet/mnemonic"
 
 	"verif/lib/crashkv"
@@ -156,6 +159,7 @@ type world struct {
 	id        int
 	db        *crashkv.DB
 	mgr       *account.Manager
+	api       *api.API // the real build handlers over this wallet's account manager
 	accts     [2]*account.Account
 	progs     [2][]*account.CtrlProgram // 3 receive addresses, then 2 change addresses (the last one only used by the chain part)
 	progOwner map[string]int
@@ -169,6 +173,7 @@ type world struct {
 func newWorld(g *global, id int) (*world, error) {
 	w := &world{g: g, id: id, db: crashkv.New(), progOwner: map[string]int{}}
 	w.mgr = account.NewManager(w.db, g.node.Chain)
+	w.api = api.VerifBuildAPI(&wallet.Wallet{AccountMgr: w.mgr, AssetReg: asset.NewRegistry(w.db, g.node.Chain)}, g.node.Chain)
 	var err error
 	if w.accts[acctSingle], err = w.mgr.Create([]chainkd.XPub{g.keys[0].xpub}, 1, "single", signers.BIP0044); err != nil {
 		return nil, err
